@@ -19,6 +19,9 @@
 #include <kernel/analytic/function.hpp>
 #include <kernel/trafo/inverse_mapping.hpp>
 #include <cstdio>
+#include <cstring>
+#include <type_traits>
+#include <utility>
 #include <kernel/lafem/dense_vector.hpp>
 #include <memory>
 
@@ -328,9 +331,112 @@ namespace c15
       }
     }
 
+
+    // ---------------------------------------------------------------------------------------------------
+    // evcfg <cell> <pt> <mask> <poison>: evaluate with exactly the requested SpaceTags mask (FEAT bit values:
+    // value 1, grad 2, hess 4, ref_value 8, ref_grad 16, ref_hess 32) as its own template instantiation.  The
+    // trafo data is requested with exactly SpaceEvaluator::ConfigTraits<mask>::trafo_config (nothing extra), both
+    // evaluation-data objects are pre-filled with the poison byte so that a quantity that is read but was never
+    // written shows up deterministically (0xFF: an invalid Q handle -> crash; 0x00: the value 0).
+    //   ->  C nloc mask { requested quantities of basis function i in the order value grad hess ref_value ref_grad ref_hess }*
+    //       F fullmask { the same for the full mask (all capabilities) }*
+    // ---------------------------------------------------------------------------------------------------
+    template<int mask_>
+    static void evcfg_one(CtxType& cx, Index cell, const DomPoint& pt, int poison, std::ostream& o)
+    {
+      static constexpr SpaceTags req = static_cast<SpaceTags>(mask_);
+      if constexpr((static_cast<int>(caps) & mask_) != mask_) { o << "UNSUPPORTED-MASK"; }
+      else
+      {
+        SpaceType space(*cx.trafo);
+        typedef typename SpaceEvaluator::template ConfigTraits<req> Cfg;
+        typedef typename Cfg::EvalDataType SD;
+        typedef typename TrafoEvaluator::template ConfigTraits<Cfg::trafo_config>::EvalDataType TD;
+        TrafoEvaluator te(*cx.trafo); SpaceEvaluator se(space);
+        te.prepare(cell); se.prepare(te);
+        TD td; SD sd;
+        std::memset(static_cast<void*>(&td), poison, sizeof(td));
+        std::memset(static_cast<void*>(&sd), poison, sizeof(sd));
+        te(td, pt); se(sd, td);
+        int nl = se.get_num_local_dofs();
+        o << "C " << nl << " " << mask_;
+        for(int i = 0; i < nl; ++i)
+        {
+          if constexpr((mask_ & 1) != 0) o << " " << Q(sd.phi[i].value);
+          if constexpr((mask_ & 2) != 0) pv(o, sd.phi[i].grad, dim);
+          if constexpr((mask_ & 4) != 0) for(int a = 0; a < dim; ++a) pv(o, sd.phi[i].hess[a], dim);
+          if constexpr((mask_ & 8) != 0) o << " " << Q(sd.phi[i].ref_value);
+          if constexpr((mask_ & 16) != 0) pv(o, sd.phi[i].ref_grad, dim);
+          if constexpr((mask_ & 32) != 0) for(int a = 0; a < dim; ++a) pv(o, sd.phi[i].ref_hess[a], dim);
+        }
+        // the same quantities from the full-mask evaluation (fresh, equally poisoned objects): "F" section
+        {
+          static constexpr int fullm = static_cast<int>(caps) & 0x3F;
+          typedef typename SpaceEvaluator::template ConfigTraits<static_cast<SpaceTags>(fullm)> FCfg;
+          typedef typename FCfg::EvalDataType FSD;
+          typedef typename TrafoEvaluator::template ConfigTraits<FCfg::trafo_config>::EvalDataType FTD;
+          FTD ftd; FSD fsd;
+          std::memset(static_cast<void*>(&ftd), poison, sizeof(ftd));
+          std::memset(static_cast<void*>(&fsd), poison, sizeof(fsd));
+          te(ftd, pt); se(fsd, ftd);
+          o << " F " << fullm;
+          for(int i = 0; i < nl; ++i)
+          {
+            if constexpr((fullm & 1) != 0) o << " " << Q(fsd.phi[i].value);
+            if constexpr((fullm & 2) != 0) pv(o, fsd.phi[i].grad, dim);
+            if constexpr((fullm & 4) != 0) for(int a = 0; a < dim; ++a) pv(o, fsd.phi[i].hess[a], dim);
+            if constexpr((fullm & 8) != 0) o << " " << Q(fsd.phi[i].ref_value);
+            if constexpr((fullm & 16) != 0) pv(o, fsd.phi[i].ref_grad, dim);
+            if constexpr((fullm & 32) != 0) for(int a = 0; a < dim; ++a) pv(o, fsd.phi[i].ref_hess[a], dim);
+          }
+        }
+        se.finish(); te.finish();
+      }
+    }
+
+    static void evcfg(CtxType& cx, Cur& c, std::ostream& o)
+    {
+      Index cell = Index(c.idx());
+      DomPoint pt = read_point(c);
+      int mask = int(c.idx());
+      int poison = int(c.idx());
+      switch(mask)
+      {
+#define C15_M(m) case m: evcfg_one<m>(cx, cell, pt, poison, o); break;
+      C15_M(1) C15_M(2) C15_M(3) C15_M(4) C15_M(5) C15_M(6) C15_M(7)
+      C15_M(8) C15_M(16) C15_M(24) C15_M(32) C15_M(40) C15_M(48) C15_M(56)
+      C15_M(17) C15_M(12) C15_M(34) C15_M(63)
+#undef C15_M
+      default: o << "UNSUPPORTED-MASK";
+      }
+    }
+
+    // caps  ->  K advertised deliverable : eval_caps of the evaluator and what it implements (detected: the reference
+    // evaluation functions it defines; for non-parametric evaluators the advertised caps are taken as delivered)
+    template<typename E_, typename = void> struct HasRV : std::false_type {};
+    template<typename E_> struct HasRV<E_, std::void_t<decltype(std::declval<const E_&>().eval_ref_values(std::declval<SpaceData&>(), std::declval<const DomPoint&>()))>> : std::true_type {};
+    template<typename E_, typename = void> struct HasRG : std::false_type {};
+    template<typename E_> struct HasRG<E_, std::void_t<decltype(std::declval<const E_&>().eval_ref_gradients(std::declval<SpaceData&>(), std::declval<const DomPoint&>()))>> : std::true_type {};
+    template<typename E_, typename = void> struct HasRH : std::false_type {};
+    template<typename E_> struct HasRH<E_, std::void_t<decltype(std::declval<const E_&>().eval_ref_hessians(std::declval<SpaceData&>(), std::declval<const DomPoint&>()))>> : std::true_type {};
+
+    static void capsop(CtxType&, Cur&, std::ostream& o)
+    {
+      int adv = static_cast<int>(SpaceEvaluator::eval_caps) & 0x3F;
+      int del = adv;
+      constexpr bool rv = HasRV<SpaceEvaluator>::value, rg = HasRG<SpaceEvaluator>::value, rh = HasRH<SpaceEvaluator>::value;
+      constexpr int tc = static_cast<int>(TrafoEvaluator::eval_caps);
+      if(rv) del |= 8 | ((tc & 1) ? 1 : 0);
+      if(rg) del |= 16 | (((tc & 1) && (tc & 8)) ? 2 : 0);
+      if(rh) del |= 32 | (((tc & 1) && (tc & 8) && (tc & 64)) ? 4 : 0);
+      o << "K " << adv << " " << del << " " << (tc & 0x7F);
+    }
+
     static void run(const std::string& op, CtxType& cx, Cur& c, std::ostream& o)
     {
       if(op == "ev") ev(cx, c, o);
+      else if(op == "evcfg") evcfg(cx, c, o);
+      else if(op == "caps") capsop(cx, c, o);
       else if(op == "ref") ref(cx, c, o);
       else if(op == "dofs") dofs(cx, c, o);
       else if(op == "interp") interp(cx, c, o);
@@ -386,6 +492,51 @@ namespace c15
       o << " " << data.cells[k];
       for(int a = 0; a < dim; ++a) { std::snprintf(buf, sizeof(buf), "%.17g", data.dom_points[k][a]); o << " " << buf; }
     }
+  }
+
+  // trcfg <cell> <pt> <mask> <poison>: the trafo evaluator with exactly the requested TrafoTags mask (FEAT bits: img_point 2,
+  // jac_mat 4, jac_inv 8, jac_det 16, hess_ten 32, hess_inv 64), poison-prefilled evaluation data
+  //   ->  G mask {img}{jac_mat}{jac_inv}{jac_det}{hess_ten}{hess_inv}   (requested ones only, row major)
+  template<typename Shape_, int mask_>
+  struct TrCfg
+  {
+    static void go(Ctx<Shape_>& cx, Index cell, int mask, int poison, const std::vector<Q>& p, std::ostream& o)
+    {
+      if(mask != mask_) { if constexpr(mask_ + 2 <= 126) TrCfg<Shape_, mask_ + 2>::go(cx, cell, mask, poison, p, o); else o << "UNSUPPORTED-MASK"; return; }
+      constexpr int dim = Shape_::dimension;
+      typedef typename Ctx<Shape_>::TrafoType TrafoType;
+      typedef typename TrafoType::template Evaluator<Shape_, Q>::Type TE;
+      static constexpr TrafoTags req = static_cast<TrafoTags>(mask_);
+      typedef typename TE::template ConfigTraits<req>::EvalDataType TD;
+      TE te(*cx.trafo);
+      te.prepare(cell);
+      typename TE::DomainPointType pt;
+      for(int k = 0; k < dim; ++k) pt[k] = p[std::size_t(k)];
+      TD td;
+      std::memset(static_cast<void*>(&td), poison, sizeof(td));
+      te(td, pt);
+      o << "G " << mask_;
+      if constexpr((mask_ & 2) != 0) pv(o, td.img_point, dim);
+      if constexpr((mask_ & 4) != 0) for(int a = 0; a < dim; ++a) pv(o, td.jac_mat[a], dim);
+      if constexpr((mask_ & 8) != 0) for(int a = 0; a < dim; ++a) pv(o, td.jac_inv[a], dim);
+      if constexpr((mask_ & 16) != 0) o << " " << Q(td.jac_det);
+      if constexpr((mask_ & 32) != 0) for(int a = 0; a < dim; ++a) for(int b = 0; b < dim; ++b) for(int e = 0; e < dim; ++e) o << " " << Q(td.hess_ten(a, b, e));
+      if constexpr((mask_ & 64) != 0) for(int a = 0; a < dim; ++a) for(int b = 0; b < dim; ++b) for(int e = 0; e < dim; ++e) o << " " << Q(td.hess_inv(a, b, e));
+      te.finish();
+    }
+  };
+
+  template<typename Shape_>
+  inline void op_trcfg(Ctx<Shape_>& cx, Cur& c, std::ostream& o)
+  {
+    constexpr int dim = Shape_::dimension;
+    Index cell = Index(c.idx());
+    std::vector<Q> p;
+    for(int k = 0; k < dim; ++k) p.push_back(rq(c));
+    int mask = int(c.idx());
+    int poison = int(c.idx());
+    if(mask < 2 || mask > 126 || (mask & 1)) { o << "UNSUPPORTED-MASK"; return; }
+    TrCfg<Shape_, 2>::go(cx, cell, mask, poison, p, o);
   }
 
   // per-shape entry points (defined in shape_*.cpp so that the shapes compile in parallel)
